@@ -30,7 +30,9 @@ import (
 	"strings"
 	"testing"
 
+	"github.com/gmrtd/gmrtd/bac"
 	"github.com/gmrtd/gmrtd/document"
+	"github.com/gmrtd/gmrtd/iso7816"
 	gmrz "github.com/gmrtd/gmrtd/mrz"
 	"github.com/gmrtd/gmrtd/password"
 	"pgregory.net/rapid"
@@ -246,7 +248,30 @@ func keyRoutes(s string, dec *gmrz.MRZ, pw *password.Password, r *refmrz.Report)
 	} else if r.Valid() {
 		return viol("infra", "reference cannot extract the MRZ information of a zone it calls valid: %v", err)
 	}
+	// "all ways of supplying the same document data open the same chip" also after a password object
+	// has been USED: run a basic-access key derivation with the object built from the full zone (against
+	// a stub that answers GET CHALLENGE and refuses EXTERNAL AUTHENTICATE), let the caller overwrite the
+	// key it was handed, and compare with a fresh object built from the three fields
+	for i := range k1 {
+		k1[i] ^= 0x5A
+	}
+	var doc document.Document
+	bac.NewBAC(iso7816.NewNfcSession(stubChip{}), &doc, pw).DoBAC()
+	kAfter, eAfter := pw.Key()
+	if eAfter != nil || !bytes.Equal(kAfter, k3) {
+		return viol("keyseed", "after the password object was used for a basic-access key derivation its Key() is %x (%v); a fresh object from the three key fields gives %x", kAfter, eAfter, k3)
+	}
 	return nil
+}
+
+// stubChip answers GET CHALLENGE with eight octets and refuses everything else.
+type stubChip struct{}
+
+func (stubChip) Transceive(cla, ins, p1, p2 int, data []byte, le int, encoded []byte) []byte {
+	if ins == 0x84 {
+		return []byte{1, 2, 3, 4, 5, 6, 7, 8, 0x90, 0x00}
+	}
+	return []byte{0x69, 0x82}
 }
 
 // examineDoc adds what is only known for a generated document: the logical
